@@ -2,7 +2,7 @@
 # tools/try_seed.sh <patch.diff> <Cxx> [<Cxx>...] : apply a seeded change to /repo, run the checks, undo it.
 P="$1"; shift
 cd /verif || exit 2
-git -C /repo apply "$P" || { echo "patch does not apply"; exit 2; }
+git -C /repo apply "$P" 2>/dev/null || (cd /repo && patch -p1 --fuzz=3 -s < "$P") || { echo "patch does not apply"; git -C /repo checkout -- .; exit 2; }
 for c in "$@"; do
   timeout 1800 bin/check "$c" --tier quick > /tmp/try_seed.$$.log 2>&1
   rc=$?
